@@ -18,7 +18,7 @@ SPEC = os.path.join(ROOT, 'spec')
 WORK = os.path.join(ROOT, 'work')
 HARNESS_DIR = os.path.join(ROOT, 'harness')
 HARNESS = os.path.join(HARNESS_DIR, 'target', 'release', 'rce-verif')
-REPO = '/repo'
+REPO = os.environ.get('VERIF_REPO', '/repo')   # checks use /repo itself; VERIF_REPO is for background runs on a snapshot
 TLA_JAR = '/opt/veriftools/tla/tla2tools.jar'
 TLA_CP = TLA_JAR + ':/opt/veriftools/tla/CommunityModules-deps.jar'
 NCPU = os.cpu_count() or 4
